@@ -48,7 +48,7 @@ class LazyLoadingTrees:
 
         super().__init__()
         self.swcs = list(swcs)
-        self.trees = [None for _ in swcs]
+        self.trees = [None for _ in self.swcs]
         self.kwargs = kwargs
 
     def __getitem__(self, key: int, /) -> Tree:
